@@ -18,7 +18,9 @@ import memdriver as M
 RULE = ("a case is one program of the enumerated catalogue (sim/vprog): one public entry point x representation x small "
         "digraph shape (trivial, path, cycle, dense, two SCCs, non-contiguous maps {0,2,9}, {0,1,7} with a successor id >= order, "
         "{0,1,70} with a tail id far beyond the order) x argument class (in-range, order, order+1, 2^40, usize::MAX; huge orders for O(1) constructors; user "
-        "callback / iterator panicking at its 1st or 2nd call), the threaded operations at 1..4 simulated CPUs. Lane U "
+        "callback / iterator panicking at its 1st or 2nd call), the threaded operations at 1..4 simulated CPUs; plus 2 160 "
+        "generated call sequences (start shape, 2-5 seeded mutations / whole-digraph operations / filters / conversions with "
+        "ids of every class, then a traversal, algorithm or query), each step under catch_unwind. Lane U "
         "executes it under Miri (any diagnostic is a violation; a Rust panic or any return value is acceptable), lane L "
         "executes it three times natively under the allocation ledger. Non-trivial = the argument is outside the digraph, "
         "or a callback panics, or >= 2 simulated CPUs, or the digraph is non-contiguous; distinct = distinct program "
@@ -27,6 +29,8 @@ RULE = ("a case is one program of the enumerated catalogue (sim/vprog): one publ
 
 def nontrivial(name):
     entry, rep, shape, x, y, cb, t = name.split("/")
+    if entry == "seq":
+        return True
     return x not in ("in0", "inlast") or y not in ("in0", "inlast") or cb != "cb0" or t not in ("t0", "t1") \
         or shape.startswith("map")
 
